@@ -8,8 +8,12 @@ use num_traits::{Float, Zero};
 #[inline(always)] fn deps() -> R { <R as AbsDiffEq>::default_epsilon() }
 #[inline(always)] fn dulps() -> u32 { <R as UlpsEq>::default_max_ulps() }
 #[inline(always)] fn ueq(a: R, b: R) -> bool { UlpsEq::ulps_eq(&a, &b, deps(), dulps()) }
-// element comparison as the matrix types' own ulps_eq!(matrix, matrix) does it: the matrix default epsilon
-#[inline(always)] fn meq(a: R, b: R) -> bool { UlpsEq::ulps_eq(&a, &b, <Matrix4<R> as AbsDiffEq>::default_epsilon(), <Matrix4<R> as UlpsEq>::default_max_ulps()) }
+// element comparison as each matrix type's own ulps_eq!(matrix, matrix) does it: with *that type's* default epsilon
+// (the property does not fix its value; taking one type's epsilon as the oracle for another would tie the verdict on
+// Matrix2 to a constant of Matrix4)
+#[inline(always)] fn meq2(a: R, b: R) -> bool { UlpsEq::ulps_eq(&a, &b, <Matrix2<R> as AbsDiffEq>::default_epsilon(), <Matrix2<R> as UlpsEq>::default_max_ulps()) }
+#[inline(always)] fn meq3(a: R, b: R) -> bool { UlpsEq::ulps_eq(&a, &b, <Matrix3<R> as AbsDiffEq>::default_epsilon(), <Matrix3<R> as UlpsEq>::default_max_ulps()) }
+#[inline(always)] fn meq4(a: R, b: R) -> bool { UlpsEq::ulps_eq(&a, &b, <Matrix4<R> as AbsDiffEq>::default_epsilon(), <Matrix4<R> as UlpsEq>::default_max_ulps()) }
 
 // component lists, in field order
 #[inline(always)] fn c_v1(v: Vector1<R>) -> [R; 1] { [v.x] }
@@ -160,13 +164,13 @@ fn c18_is_zero_q(q: Quaternion<R>, a: Rad<R>, d: Deg<R>) {
     vcover("end");
 }
 // matrices compare with their own default tolerance (epsilon 1e-6, the scalar's max ulps)
-fn c18_is_zero_m2(m: Matrix2<R>) { let y = c_m2(m); let mut w = true; let mut i = 0; while i < 4 { w = w & meq(y[i], R(0.0)); i += 1; } vassert("m2", m.is_zero() == w); vcover("end"); }
-fn c18_is_zero_m3(m: Matrix3<R>) { let y = c_m3(m); let mut w = true; let mut i = 0; while i < 9 { w = w & meq(y[i], R(0.0)); i += 1; } vassert("m3", m.is_zero() == w); vcover("end"); }
-fn c18_is_zero_m4(m: Matrix4<R>) { let y = c_m4(m); let mut w = true; let mut i = 0; while i < 16 { w = w & meq(y[i], R(0.0)); i += 1; } vassert("m4", m.is_zero() == w); vcover("end"); }
+fn c18_is_zero_m2(m: Matrix2<R>) { let y = c_m2(m); let mut w = true; let mut i = 0; while i < 4 { w = w & meq2(y[i], R(0.0)); i += 1; } vassert("m2", m.is_zero() == w); vcover("end"); }
+fn c18_is_zero_m3(m: Matrix3<R>) { let y = c_m3(m); let mut w = true; let mut i = 0; while i < 9 { w = w & meq3(y[i], R(0.0)); i += 1; } vassert("m3", m.is_zero() == w); vcover("end"); }
+fn c18_is_zero_m4(m: Matrix4<R>) { let y = c_m4(m); let mut w = true; let mut i = 0; while i < 16 { w = w & meq4(y[i], R(0.0)); i += 1; } vassert("m4", m.is_zero() == w); vcover("end"); }
 // ---- matrix predicates
-fn c18_is_identity2(m: Matrix2<R>) { let a = a2(m); let (o, i) = (R(0.0), R(1.0)); vassert("is_identity", m.is_identity() == (meq(a[0][0], i) & meq(a[0][1], o) & meq(a[1][0], o) & meq(a[1][1], i))); vcover("end"); }
-fn c18_is_identity3(m: Matrix3<R>) { let a = a3(m); let mut w = true; let mut c = 0; while c < 3 { let mut r = 0; while r < 3 { w = w & meq(a[c][r], if c == r { R(1.0) } else { R(0.0) }); r += 1; } c += 1; } vassert("is_identity", m.is_identity() == w); vcover("end"); }
-fn c18_is_identity4(m: Matrix4<R>) { let a = a4(m); let mut w = true; let mut c = 0; while c < 4 { let mut r = 0; while r < 4 { w = w & meq(a[c][r], if c == r { R(1.0) } else { R(0.0) }); r += 1; } c += 1; } vassert("is_identity", m.is_identity() == w); vcover("end"); }
+fn c18_is_identity2(m: Matrix2<R>) { let a = a2(m); let (o, i) = (R(0.0), R(1.0)); vassert("is_identity", m.is_identity() == (meq2(a[0][0], i) & meq2(a[0][1], o) & meq2(a[1][0], o) & meq2(a[1][1], i))); vcover("end"); }
+fn c18_is_identity3(m: Matrix3<R>) { let a = a3(m); let mut w = true; let mut c = 0; while c < 3 { let mut r = 0; while r < 3 { w = w & meq3(a[c][r], if c == r { R(1.0) } else { R(0.0) }); r += 1; } c += 1; } vassert("is_identity", m.is_identity() == w); vcover("end"); }
+fn c18_is_identity4(m: Matrix4<R>) { let a = a4(m); let mut w = true; let mut c = 0; while c < 4 { let mut r = 0; while r < 4 { w = w & meq4(a[c][r], if c == r { R(1.0) } else { R(0.0) }); r += 1; } c += 1; } vassert("is_identity", m.is_identity() == w); vcover("end"); }
 fn c18_is_diagonal2(m: Matrix2<R>) { let a = a2(m); let o = R(0.0); vassert("is_diagonal", m.is_diagonal() == (ueq(a[0][1], o) & ueq(a[1][0], o))); vcover("end"); }
 fn c18_is_diagonal3(m: Matrix3<R>) { let a = a3(m); let mut w = true; let mut c = 0; while c < 3 { let mut r = 0; while r < 3 { if c != r { w = w & ueq(a[c][r], R(0.0)); } r += 1; } c += 1; } vassert("is_diagonal", m.is_diagonal() == w); vcover("end"); }
 fn c18_is_diagonal4(m: Matrix4<R>) { let a = a4(m); let mut w = true; let mut c = 0; while c < 4 { let mut r = 0; while r < 4 { if c != r { w = w & ueq(a[c][r], R(0.0)); } r += 1; } c += 1; } vassert("is_diagonal", m.is_diagonal() == w); vcover("end"); }
